@@ -53,6 +53,9 @@ func (c cfgSpec) String() string {
 	return fmt.Sprintf("universe=%q secret=%q lite=%v stub=%v services=%d friends=%d listeners=%d jsonState=%v apiListen=%v", c.universe, c.secret, c.lite, c.stub, c.services, c.friends, c.listeners, c.jsonState, c.api)
 }
 
+// cfgSources: how a configuration reaches mycoria.New (rotated over cases and routers).
+var cfgSources = []string{"store", "yaml", "json", "yml"}
+
 func freePort() int {
 	l, err := net.Listen("tcp", "127.0.0.1:0")
 	if err != nil {
@@ -128,7 +131,7 @@ type history []string // N = new both, S = start both, P = wait for peering, X =
 func TestC20(t *testing.T) {
 	env := kit.GetEnv()
 	rep := kit.NewReport("C20", env)
-	rep.Rule = "configurations: universe {'', 'u'} x secret {'', 's'} x lite x stub x services {0,1} x friends {0,1} x listeners {1,2 loopback ports} x state storage {memory, json file} x API listener {none, free loopback port} (quick: a pairwise-covering subset of 24, thorough: all 512) for a pair of real relay-only instances (second dials the first); plus, for every sixth configuration (thorough: all), three routers on one host of which one has two connect URLs and must peer with both; histories: every well-formed word over {New, Start, Peer, Stop (sequential), Stop (both concurrently)} of up to 3 cycles from a fixed family (start-stop, start-peer-stop, construct-only, stop-without-start, double stop, and their repetitions) in one process; plus the module group alone with stub modules: all assignments of {ok, start fails, stop fails, worker never ends} to 4 modules with at most 2 faults (virtual time): every started module stopped once in reverse order, managers cancelled, result reports the failure; observed: panics/errors of New/Start, link on both sides, return value of Stop, goroutine count back to the pre-New baseline after every cycle; non-trivial = every case (each has >= 1 full cycle); distinct = distinct (configuration, history)"
+	rep.Rule = "configurations: universe {'', 'u'} x secret {'', 's'} x lite x stub x services {0,1} x friends {0,1} x listeners {1,2 loopback ports} x state storage {memory, json file} x API listener {none, free loopback port} (quick: a pairwise-covering subset of 24, thorough: all 512) for a pair of real relay-only instances (second dials the first), each configuration handed over as a parsed store or written as a .yaml / .json / .yml file and read by the real loader (rotating over cases); plus, for every sixth configuration (thorough: all), three routers on one host of which one has two connect URLs and must peer with both; histories: every well-formed word over {New, Start, Peer, Stop (sequential), Stop (both concurrently)} of up to 3 cycles from a fixed family (start-stop, start-peer-stop, construct-only, stop-without-start, double stop, and their repetitions) in one process; plus the module group alone with stub modules: all assignments of {ok, start fails, stop fails, worker never ends} to 4 modules with at most 2 faults (virtual time): every started module stopped once in reverse order, managers cancelled, result reports the failure; observed: panics/errors of New/Start, link on both sides, return value of Stop, goroutine count back to the pre-New baseline after every cycle; non-trivial = every case (each has >= 1 full cycle); distinct = distinct (configuration, history)"
 	rep.Assumptions = []string{
 		"this check runs on real loopback TCP in real time: goroutine schedules are NOT controlled; the property is quantified over configurations and histories only, which are enumerated exhaustively",
 		"waiting uses monotone conditions polled under a 30 s ceiling; no short wall-clock oracle is used",
@@ -214,9 +217,23 @@ func TestC20(t *testing.T) {
 					sa := mkStore(c, pool[0], ports, 0, dir, fmt.Sprintf("a-%d-%d", caseNo, hi))
 					sb := mkStore(c, pool[1], []int{freePort()}, ports[0], dir, fmt.Sprintf("b-%d-%d", caseNo, hi))
 					for i, st := range []config.Store{sa, sb} {
-						cfg, err := st.Parse()
+						// the configuration reaches the constructor as a parsed store or, the way the
+						// program starts, from a configuration file through the real loader.
+						src := cfgSources[(caseNo+i)%len(cfgSources)]
+						var cfg *config.Config
+						var err error
+						if src == "store" {
+							cfg, err = st.Parse()
+						} else {
+							var pan any
+							cfg, err, pan = kit.LoadConfigFile(dir, fmt.Sprintf("config-%d-%d-%d", caseNo, step, i), src, st)
+							if pan != nil {
+								fail("config-file-load-panics/"+src, fmt.Sprintf("loading a valid relay-only configuration from a .%s file panicked: %v", src, pan))
+								break
+							}
+						}
 						if err != nil {
-							fail("config-rejected", "valid relay-only configuration rejected: "+err.Error())
+							fail("config-rejected", fmt.Sprintf("valid relay-only configuration (source: %s) rejected: %v", src, err))
 							break
 						}
 						var inst *mycoria.Instance
